@@ -9,8 +9,8 @@
     predicates._OPERATOR (EqualsPredicate)                -> gen_operator
     the order of the constraint-type dispatch chain       -> gen_dispatch
 * fingerprints: the ast of functions the model transcribes by hand
-  (EqualsPredicate/InPredicate.__call__, AndConstraint/OrConstraint.apply/.invert/.make,
-   NullConstraint, Constraint.invert, _constrain_value, the remaining apply_to_value branches)
+  (OrConstraint.apply and its helpers, AndConstraint/OrConstraint.make, _constrain_value,
+   constrain_value, Constraint.apply_to_values, the remaining apply_to_value branches)
   is compared with the dump recorded in harness/translate/narrowpreds_pinned.json when the model
   was written; a difference aborts the translator (broken obligation), even if harmless.
 Properties/C02.v proves the generated skeletons equal to the model's."""
@@ -134,14 +134,22 @@ def pinned_items(repo):
     ss = ast.parse((root / "stacked_scopes.py").read_text())
     pr = ast.parse((root / "predicates.py").read_text())
     items = {}
-    for cls, fn in [("EqualsPredicate", "__call__"), ("InPredicate", "__call__")]:
-        items[f"predicates.{cls}.{fn}"] = _find(pr, cls, fn)
-    for cls, fns in [("AndConstraint", ["apply", "invert", "make"]), ("OrConstraint", ["apply", "invert", "make", "_constraint_from_list", "_group_constraints"]),
-                     ("NullConstraint", ["apply", "invert"]), ("Constraint", ["apply", "invert", "apply_to_values"])]:
+    # (EqualsPredicate / InPredicate.__call__, the invert methods, AndConstraint.apply, NullConstraint.apply and
+    #  Constraint.apply are translated by narrowsrc.py since phase 3 and no longer pinned)
+    def _has(cls, fn):
+        try:
+            _find(ss, cls, fn)
+            return True
+        except TranslateError:
+            return False
+
+    for cls, fns in [("AndConstraint", ["make"]), ("OrConstraint", ["apply", "_apply", "make", "_constraint_from_list", "_group_constraints"]),
+                     ("Constraint", ["apply_to_values", "_apply_compound"])]:
+        fns = [f for f in fns if _has(cls, f)]
         for fn in fns:
             items[f"stacked_scopes.{cls}.{fn}"] = _find(ss, cls, fn)
     for node in ss.body:
-        if isinstance(node, ast.FunctionDef) and node.name in ("_constrain_value", "constrain_value"):
+        if isinstance(node, ast.FunctionDef) and node.name in ("_constrain_value", "constrain_value", "_drop_repeated", "_memoized_apply", "_memoized_invert"):
             items[f"stacked_scopes.{node.name}"] = node
     for name, body in _branches(_find(ss, "Constraint", "apply_to_value")):
         if name in ("is_instance", "is_value", "predicate", "one_of", "all_of"):
